@@ -123,8 +123,10 @@ theorem apiSpawn_r (s : Sys) (t n) : RSame s (apiSpawn s t n) := by
   · rpeel (setPc_r _ _ _); rpeel (emit_r _ _); exact spawnProc_r _ _
   all_goals (rpeel (setPc_r _ _ _); exact spawnProc_r _ _)
 
+theorem addDone_r (s : Sys) (i : IId) : RSame s (addDone s i) := by
+  unfold addDone; done_r
 theorem doSkip_r (s : Sys) (t i) : RSame s (doSkip s t i) := by
-  unfold doSkip; exact (onProcessEnd_r _ _ _).then (setPc_r _ _ _)
+  unfold doSkip; exact (addDone_r _ _).then ((onProcessEnd_r _ _ _).then (setPc_r _ _ _))
 
 theorem afterDeps_r (s : Sys) (t) : RSame s (afterDeps s t) := setPc_r _ _ _
 
